@@ -67,9 +67,10 @@ class CallGraph:
             self.edges[p] = outs
             self.sites[p] = sites
 
-    def reachable(self, roots):
+    def reachable(self, roots, avoid=()):
+        """Functions reachable from roots; nodes in `avoid` are not entered (reachability that does not pass through them)."""
         seen = set()
-        st = [r for r in roots if r in self.fns]
+        st = [r for r in roots if r in self.fns and r not in avoid]
         parent = {}
         while st:
             x = st.pop()
@@ -77,7 +78,7 @@ class CallGraph:
                 continue
             seen.add(x)
             for y in self.edges.get(x, ()):
-                if y in self.fns and y not in seen:
+                if y in self.fns and y not in seen and y not in avoid:
                     parent.setdefault(y, x)
                     st.append(y)
         self.parent = parent
